@@ -116,6 +116,13 @@ func runDeleWithdraw(ctx *action.Context, tx action.RawTx) (bool, action.Respons
 
 	// initiate a withdrawal which matures at block [height+RewardsMaturityTime]
 	coinAmt := withdraw.Amount.ToCoin(ctx.Currencies)
+	// a negative amount would raise the reward balance and leave a negative pending withdrawal
+	if !coinAmt.IsValid() {
+		return helpers.LogAndReturnFalse(ctx.Logger, action.ErrInvalidAmount, withdraw.Tags(), errors.New("Coin is not valid"))
+	}
+	if coinAmt.Currency.Name != "OLT" {
+		return helpers.LogAndReturnFalse(ctx.Logger, action.ErrInvalidCurrency, withdraw.Tags(), errors.New("currency is not OLT"))
+	}
 	err = ctx.NetwkDelegators.Rewards.Withdraw(withdraw.Delegator, coinAmt.Amount, height+options.RewardsMaturityTime)
 	if err != nil {
 		return helpers.LogAndReturnFalse(ctx.Logger, netwkDeleg.ErrInitiateWithdrawal, withdraw.Tags(), err)
